@@ -158,12 +158,12 @@ Definition tok (name : String.string) : text := (1%N :: T name) ++ [109%N].
 Definition OFF := tok "OFF".
 
 (* character_width: 2 when unicodedata.east_asian_width is one of the classes of line 303 *)
-Fixpoint in_ranges (c : N) (rs : list (N * N)) : bool :=
-  match rs with
-  | [] => false
-  | (lo, hi) :: r => if (c <? lo)%N then false else if (c <=? hi)%N then true else in_ranges c r
+Fixpoint in_tree (c : N) (t : c18_rtree) : bool :=
+  match t with
+  | RLeaf => false
+  | RNode l lo hi r => if (c <? lo)%N then in_tree c l else if (c <=? hi)%N then true else in_tree c r
   end.
-Definition char_width (c : N) : nat := if in_ranges c c18_wide_ranges then 2 else 1.
+Definition char_width (c : N) : nat := if in_tree c c18_wide_tree then 2 else 1.
 
 (* trunc_printable (lines 305-329).  [tp_go] is the loop: emitted text, final offset,
    and whether the loop returned early (line 325). *)
@@ -504,12 +504,16 @@ Definition colorizer (record : text) (can_colorize : bool) : text :=
   fold_left (fun rec kv => replace (fst kv) (if can_colorize then snd kv else []) rec)
             c18_colors (replace U0001 [1%N] record).
 
-(* line 410-412 *)
-Definition final_line (cfg : config) (ln : text) : text :=
-  colorizer (trunc_printable ln (dwidth cfg) false) (colorize cfg).
+(* lines 410-412: every line is cut to the display width, colorized, and the lines joined *)
+Definition cut_lines (f : frame) (cfg : config) : result (list (lkind * text)) :=
+  bind (inner_tagged f cfg) (fun ls =>
+    Ok (map (fun l => (fst l, trunc_printable (snd l) (dwidth cfg) false)) ls)).
+
+Definition finish (cfg : config) (cuts : list (lkind * text)) : text :=
+  join [10%N] (map (fun l => colorizer (snd l) (colorize cfg)) cuts).
 
 Definition ascii_table (f : frame) (cfg : config) : result text :=
-  bind (inner_tagged f cfg) (fun ls => Ok (join [10%N] (map (fun l => final_line cfg (snd l)) ls))).
+  bind (cut_lines f cfg) (fun cuts => Ok (finish cfg cuts)).
 
 (* ------------------------------------------------------------------ *)
 (* markdown (lines 415-446), joined with "\n" as DataFrame.markdown does *)
@@ -589,15 +593,10 @@ Fixpoint ellipsis_at {A} (ls : list (line A)) (i : nat) : list nat :=
   | LRow _ _ :: r => ellipsis_at r (S i)
   end.
 
-(* printed width of every line handed to colorizer (box lines and ellipsis alike) *)
-Definition cut_widths (f : frame) (cfg : config) : result (list nat) :=
-  bind (inner_tagged f cfg) (fun ls =>
-    Ok (map (fun l => pw (trunc_printable (snd l) (dwidth cfg) false)) ls)).
-
 Record case := mkcase {
   c_frame : frame; c_cfg : config;
   c_md_limit : nat; c_md_mcw : nat; c_cols : nat;
-  o_display : obs; o_markdown : obs; o_str : obs;
+  o_display : obs; o_markdown : obs; o_str : option obs;
   o_labels : option (list nat * list nat);   (* parsed from the real output when the label column survived the cut *)
   o_widths : option (list nat)               (* printable-ASCII content only: len of each real line, colour codes stripped *)
 }.
@@ -607,9 +606,10 @@ Definition list_nat_eqb (a b : list nat) : bool :=
 
 Definition c18_check (c : case) : bool :=
   let f := c_frame c in let cfg := c_cfg c in
-  obs_match (ascii_table f cfg) (o_display c)
+  let cuts := cut_lines f cfg in
+  obs_match (bind cuts (fun cs => Ok (finish cfg cs))) (o_display c)      (* = ascii_table f cfg *)
   && obs_match (Ok (markdown f (c_md_limit c) (c_md_mcw c))) (o_markdown c)
-  && obs_match (df_str f (c_cols c)) (o_str c)
+  && match o_str c with None => true | Some o => obs_match (df_str f (c_cols c)) o end
   && match o_labels c with
      | None => true
      | Some (labs, ell) =>
@@ -618,7 +618,7 @@ Definition c18_check (c : case) : bool :=
      end
   && match o_widths c with
      | None => true
-     | Some ws => match cut_widths f cfg with Ok m => list_nat_eqb m ws | Raise _ => false end
+     | Some ws => match cuts with Ok cs => list_nat_eqb (map (fun l => pw (snd l)) cs) ws | Raise _ => false end
      end.
 
 (* the model's own output, for diagnosing a mismatch *)
@@ -627,4 +627,4 @@ Definition c18_show (c : case) :=
    markdown (c_frame c) (c_md_limit c) (c_md_mcw c),
    df_str (c_frame c) (c_cols c),
    (labels_of (shown_lines (rows (c_frame c)) (limit (c_cfg c)) (top_tail (c_cfg c)) (lazy (c_frame c))),
-    cut_widths (c_frame c) (c_cfg c))).
+    match cut_lines (c_frame c) (c_cfg c) with Ok cs => map (fun l => pw (snd l)) cs | Raise _ => [] end)).
